@@ -53,7 +53,10 @@ def run(run, tier, loadcfg):
                        'With the ring buffer a FIFO (C06) the stream is prefill ++ source (paper step).')
     run.assumptions = ['dasp_ring_buffer::Bounded is an opaque FIFO here (decided by C06)']
     for cfg in ['std-debug'] + (['nostd'] if tier == 'thorough' else []):
-        cx = Ctx(loadcfg(cfg))
+        fx_ = loadcfg(cfg, optional=(cfg == 'nostd'))
+        if fx_ is None:
+            continue
+        cx = Ctx(fx_)
         si, ri = cx.field_index(KEY, 'signal'), cx.field_index(KEY, 'ring_buffer')
         if si is None or ri is None:
             run.fail('buffered.fields', KEY, cfg, 'Buffered { signal, ring_buffer } not found')
